@@ -99,6 +99,32 @@ func auditMutants(verifDir, repo, prop string) []auditResult {
 			patches = append(patches, [2]string{p, exp})
 		}
 	}
+	// the behaviour-preserving changes of the keep round written against this property (DESIGN.md §3.3): silence is
+	// expected, except for the documented limits (meta.json lists the checks that still report)
+	keeps, _ := filepath.Glob(filepath.Join(verifDir, "keeps", prop+"-k*", "meta.json"))
+	sort.Strings(keeps)
+	for _, meta := range keeps {
+		b, err := os.ReadFile(meta)
+		if err != nil {
+			continue
+		}
+		var m struct {
+			Alarms []string `json:"alarms"`
+		}
+		if json.Unmarshal(b, &m) != nil {
+			continue
+		}
+		exp := "keep"
+		for _, a := range m.Alarms {
+			if a == prop {
+				exp = "limit" // a false alarm that remains (DESIGN.md §6): recorded, not counted against the audit
+			}
+		}
+		p := filepath.Join(filepath.Dir(meta), "patch.diff")
+		if _, err := os.Stat(p); err == nil {
+			patches = append(patches, [2]string{p, exp})
+		}
+	}
 	exe, _ := os.Executable()
 	var out []auditResult
 	for _, pe := range patches {
@@ -154,7 +180,7 @@ func auditMutants(verifDir, repo, prop string) []auditResult {
 			default:
 				res.Outcome = fmt.Sprintf("checker exit %d", code)
 			}
-			res.OK = (pe[1] == "break" && code == 1) || (pe[1] == "keep" && code == 0) || (pe[1] == "miss" && code == 0)
+			res.OK = (pe[1] == "break" && code == 1) || (pe[1] == "keep" && code == 0) || (pe[1] == "miss" && code == 0) || pe[1] == "limit"
 			if pe[1] == "miss" && code == 1 {
 				res.Outcome += " (now reported: update meta.json with tools/seedmatrix.py)"
 			}
